@@ -570,7 +570,19 @@ class ConfigSuite(Suite):
     def _inv_missing_blocker(self, rng, cfg):
         cfg = copy.deepcopy(cfg)
         kw = rng.choice(cfg["jobs"])
-        kw["blocked_by"] = list(kw.get("blocked_by", [])) + [rng.choice(["nope", 99, "0", len(cfg["jobs"]) + 1])]
+        cands = ["nope", 99, "0", len(cfg["jobs"]) + 1]
+        # the generated id of a job that has an explicit name is NOT a job name: a blocker spelled like such an id
+        # (as int or str) names no job although "a job with that number" exists
+        names = set(effective_names(cfg["jobs"]))
+        next_id = 1
+        for j in cfg["jobs"]:
+            jid = j.get("job_id")
+            if jid is None:
+                jid = next_id
+                next_id += 1
+            if j.get("name") is not None and str(jid) not in names:
+                cands += [jid, str(jid)]
+        kw["blocked_by"] = list(kw.get("blocked_by", [])) + [rng.choice(cands)]
         return cfg
 
     def _inv_dup_name(self, rng, cfg):
@@ -748,6 +760,8 @@ class ConfigSuite(Suite):
             edits = case.get("edits") or []
             if edits:
                 f.write_text(json.dumps(apply_edits(tree, edits)))
+            else:
+                self._prior_load_of_other_content(f, tree, create_config_from_file)
             try:
                 c2 = create_config_from_file(str(f))
             except Exception as e:
@@ -756,6 +770,37 @@ class ConfigSuite(Suite):
                 return r
             return {"stage": "ok", "file": file, "original": original, "reloaded": dump_config(c2),
                     "lossless": plain(c2.serialize()) == ser0}
+
+    def _prior_load_of_other_content(self, f, tree, load):
+        """The path held ANOTHER configuration a moment ago and this process loaded it: same byte size, same
+        modification time (a coarse-granularity filesystem: NFS/Lustre with 1 s stamps).  Loading the file now must
+        return what the file says now, whatever an earlier load of that path returned."""
+        text = f.read_text()
+        st = os.stat(f)
+        try:
+            cmd = tree["jobs"][0]["command"]
+        except (KeyError, IndexError, TypeError):
+            return
+        if not isinstance(cmd, str) or not cmd or not (cmd[-1].isascii() and cmd[-1].isalnum()):
+            return
+        needle = '"command": ' + json.dumps(cmd)
+        i = text.find(needle)
+        if i < 0:
+            return
+        k = i + len(needle) - 2          # the last character of the command inside the file
+        otext = text[:k] + ("X" if text[k] != "X" else "Y") + text[k + 1:]
+        assert len(otext.encode()) == len(text.encode()) and otext != text
+        try:
+            f.write_text(otext)
+            os.utime(f, ns=(st.st_atime_ns, st.st_mtime_ns))
+            try:
+                load(str(f))
+            except Exception:
+                pass
+        finally:
+            f.write_text(text)
+            os.utime(f, ns=(st.st_atime_ns, st.st_mtime_ns))
+        self.prior_loads = getattr(self, "prior_loads", 0) + 1
 
     def _impl_checks(self, case):
         from jade.jobs.job_submitter import JobSubmitter
